@@ -34,7 +34,8 @@ class Spec:
     """one wrapper under contract"""
 
     def __init__(self, name, module, func, args, stubs, kind, pre=None, inside=None, outside=None, pol="polarization",
-                 extra_kwargs=None, region=None, homog=0, lengths=(), assumed=()):
+                 extra_kwargs=None, region=None, homog=0, lengths=(), assumed=(), has_field=True, extra_ns=None, out_T=False):
+        self.has_field, self.extra_ns, self.out_T = has_field, extra_ns or {}, out_T
         self.name, self.module, self.func = name, module, func
         self.args = args  # ordered dict name -> trailing shape
         self.stubs = stubs  # callee name -> stub factory
@@ -59,6 +60,7 @@ class Spec:
                 o[k] = WRAPPERS[dep].namespace()[WRAPPERS[dep].func]
             else:
                 o[k] = mk()
+        o.update(self.extra_ns)
         o.update(extra or {})
         return rebind(_mod(self.module), o)
 
@@ -87,7 +89,9 @@ class Spec:
             del rowgen.WRITES[:]
             kwargs = dict(self.extra_kwargs)
             kwargs.update(kw)
-            r = f(field, **a, **kwargs)
+            r = f(field, **a, **kwargs) if self.has_field else f(**a, **kwargs)
+            if self.out_T and isinstance(r, G):
+                r = r.T
             w = [(what) for (tgt, isarg, what) in rowgen.WRITES if isarg]
             return r, w, a
 
@@ -103,8 +107,42 @@ class Spec:
             if not isinstance(r, G) or r.bax != 0 or r.tshape != (3,) or len(r.blocks) != 1 or r.tag is not None:
                 out.append(dict(pc=list(ctx.pc), ax=list(ctx.axioms), exc=TypeError(f"result is not a full (n,3) array: {r!r}")))
                 continue
-            out.append(dict(pc=list(ctx.pc), ax=list(ctx.axioms), out=[asreal(t) for t in r.blocks[0]], writes=w, args=a))
+            outs = [asreal(t) for t in r.blocks[0]]
+            outs, un = eliminate_uninit(list(ctx.pc) + list(ctx.axioms), outs)
+            if un is False:
+                self.problems.append("uninitialised memory (np.empty) may reach the result")
+            out.append(dict(pc=list(ctx.pc), ax=list(ctx.axioms), out=outs, writes=w, args=a, uninit_eliminated=un))
         return out
+
+
+def eliminate_uninit(assum, outs):
+    """np.empty is modelled by fresh unconstrained reals `uninitK`. If the result provably does not depend on them (all rows are
+    overwritten by masked assignments) they are replaced by 0; returns (outs, True/None/False) = proved independent / none present / not proved"""
+    seen, found = set(), {}
+
+    def walk(t):
+        if t.get_id() in seen:
+            return
+        seen.add(t.get_id())
+        if z3.is_const(t) and t.decl().kind() == z3.Z3_OP_UNINTERPRETED and t.decl().name().startswith("uninit"):
+            found[t.decl().name()] = t
+        for c in t.children():
+            walk(c)
+
+    for t in outs:
+        walk(t)
+    if not found:
+        return outs, None
+    vs = list(found.values())
+    a = [z3.substitute(t, *[(v, z3.Real(v.decl().name() + "_a")) for v in vs]) for t in outs]
+    b = [z3.substitute(t, *[(v, z3.Real(v.decl().name() + "_b")) for v in vs]) for t in outs]
+    s = z3.Solver()
+    s.set("timeout", 30000)
+    s.add(*assum)
+    s.add(z3.Not(z3.And(*[x == y for x, y in zip(a, b)])))
+    if s.check() != z3.unsat:
+        return outs, False
+    return [z3.simplify(z3.substitute(t, *[(v, z3.RealVal(0)) for v in vs])) for t in outs], True
 
 
 def report_problems(rep, sp, label, fnl):
@@ -396,3 +434,21 @@ _reg(Spec("Polyline", "field_BH_polyline", "BHJM_current_polyline",
           dict(observers=(3,), segment_start=(3,), segment_end=(3,), current=()),
           dict(current_polyline_Hfield=st("polyline_H", 3)), "current", pol=None, homog=-1,
           lengths=("observers", "segment_start", "segment_end")))
+
+
+# ---- core field functions run as REAL code under the row-generic shim (no stub): the loop-free algebraic cores -------------------
+CORES = {}
+
+
+def _regc(s):
+    CORES[s.name] = s
+
+
+_regc(Spec("magnet_cuboid_Bfield", "field_BH_cuboid", "magnet_cuboid_Bfield", dict(observers=(3,), dimensions=(3,), polarizations=(3,)), {}, "core",
+           pre=lambda a: [col(a, "dimensions", i) > 0 for i in range(3)], pol="polarizations", lengths=("observers", "dimensions"), has_field=False))
+_regc(Spec("dipole_Hfield", "field_BH_dipole", "dipole_Hfield", dict(observers=(3,), moments=(3,)), {}, "core", pol="moments", homog=-3,
+           lengths=("observers",), has_field=False))
+_regc(Spec("triangle_Bfield", "field_BH_triangle", "triangle_Bfield", dict(observers=(3,), vertices=(3, 3), polarizations=(3,)), {}, "core",
+           pol="polarizations", lengths=("observers", "vertices"), has_field=False))
+# current_polyline_Hfield also runs under the shim (2 paths, ~20 s), but "np.empty never reaches the result" and the non-interference
+# obligation need nonlinear real arithmetic that z3/cvc5 do not finish in 30 s: left as an ASSUMED contract (not registered).
